@@ -20,7 +20,7 @@ def run():
     s = summ[0]
     acc.evaluations += s["vectors"]; acc.nontrivial += s["nontrivial"]
     acc.extra["replay"] = {"vectors": s["vectors"], "nontrivial": s["nontrivial"], "classes": s["classes"]}
-    acc.samples += [{"vector": x} for x in s.get("samples", [])]
+    acc.samples += [{"vector": x} for x in (s.get("samples") or [])]
     for r in recs:
         if r.get("kind") == "mismatch":
             v.fail("load:%s:%s" % (r["class"], r["spelling"]), r)
